@@ -294,6 +294,7 @@ enum HostKind {
     Graph,
     Stable,
     Matrix,
+    Map,
 }
 struct HostConsistency {
     host: HostKind,
@@ -413,6 +414,21 @@ fn host_history(h: &HostConsistency, bit: &mut dyn FnMut(&str) -> bool) -> Vec<S
                     }
                     if hole_mid {
                         g.remove_node(mid.unwrap());
+                    }
+                    trait_view(&g, h.directed, &mut bad);
+                }
+                HostKind::Map => {
+                    // keys in descending order, one extra key removed again (indices shift as documented)
+                    let mut g: petgraph::graphmap::GraphMap<u8, u8, $ty> = petgraph::graphmap::GraphMap::new();
+                    g.add_node(9);
+                    let at: Vec<u8> = (0..n).map(|k| g.add_node(7 - k as u8)).collect();
+                    for (k, &(a, b)) in pairs.iter().enumerate() {
+                        if present[k] {
+                            g.add_edge(at[a], at[b], k as u8);
+                        }
+                    }
+                    if hole_first {
+                        g.remove_node(9);
                     }
                     trait_view(&g, h.directed, &mut bad);
                 }
@@ -542,7 +558,7 @@ fn make(tier: &str, _seed: u64) -> Vec<Box<dyn Harness>> {
             }
         }
     }
-    for host in [HostKind::Graph, HostKind::Stable, HostKind::Matrix] {
+    for host in [HostKind::Graph, HostKind::Stable, HostKind::Matrix, HostKind::Map] {
         for directed in [true, false] {
             v.push(Box::new(HostConsistency { host, directed }));
         }
